@@ -14,7 +14,7 @@ PROPS = {
                 "run-time (create_call on a pre-parsed function) and compound-assignment form and compared with an i128 / native-f64 oracle. "
                 "distinct_nontrivial = distinct (type, operator, operand values) triples; every triple is non-trivial (a full evaluation against the oracle).",
         "assumptions": COMMON_ASSUME + ["float oracle = the same operation on the host's f64 (IEEE-754 binary64; powf from the platform libm)"],
-        "floors": {"quick": {"evaluations": 100000, "shape:errors_by_op": 5}, "thorough": {"evaluations": 2000000, "shape:errors_by_op": 5}},
+        "floors": {"quick": {"evaluations": 25000, "shape:errors_by_op": 5}, "thorough": {"evaluations": 50000, "shape:errors_by_op": 5}},
         "exhaustive": False,
         "technique": "runtime value monitor: differential against an independent i128 / IEEE oracle over grid + random operands, three evaluation forms",
         "level_text": "Every operator is executed through the real parser/folder/interpreter in three forms on an exhaustive boundary grid and millions of seeded random operands; "
@@ -31,7 +31,7 @@ PROPS["C09"] = {
             "and compared with a PySlice_AdjustIndices oracle written over i128; std.len compared with the scalar count; static type of the literal form must admit the value. "
             "distinct_nontrivial = distinct (sequence, operation, bounds) cases.",
     "assumptions": COMMON_ASSUME + ["oracle = Python slice semantics re-implemented in the harness over i128, independent of the slyce crate"],
-    "floors": {"quick": {"evaluations": 200000, "shape:slice_shapes": 20}, "thorough": {"evaluations": 2000000, "shape:slice_shapes": 20}},
+    "floors": {"quick": {"evaluations": 50000, "shape:slice_shapes": 20}, "thorough": {"evaluations": 100000, "shape:slice_shapes": 20}},
     "technique": "runtime value monitor: differential against an independent Python-slice oracle, exhaustive bounded grid, folded and run-time forms",
     "level_text": "All listed sequences are indexed and sliced through the real parser/folder/interpreter with every index / (start, stop, step) combination in a range exceeding the length on both sides plus extreme i64 values, "
                   "in folded and run-time form; values, error kinds, result kind and the static type are compared with an independent oracle. Exhaustive within the listed bounds, sampled beyond.",
@@ -47,7 +47,7 @@ PROPS["C20"] = {
             "Integer literal texts (0b/0o/0x/decimal, underscores, leading zeros, 63/64/65-bit magnitudes) are checked against u128 parsing: in range -> that value, otherwise IntegerOverflow. "
             "distinct_nontrivial = distinct printed texts / literal texts.",
     "assumptions": COMMON_ASSUME + ["expected value of a printed text = the value it was printed from (harness keeps the original); the replay reader understands Rust Debug escapes"],
-    "floors": {"quick": {"evaluations": 300000, "shape:int_literal_forms": 12, "shape:value_features": 12}, "thorough": {"evaluations": 3000000, "shape:int_literal_forms": 12, "shape:value_features": 12}},
+    "floors": {"quick": {"evaluations": 75000, "shape:int_literal_forms": 12, "shape:value_features": 12}, "thorough": {"evaluations": 150000, "shape:int_literal_forms": 12, "shape:value_features": 12}},
     "technique": "runtime round-trip monitor: print -> parse (two routes) -> compare with the original value and type; integer literal forms vs u128 oracle",
     "level_text": "Hundreds of thousands of generated first-order values and integer literal spellings are pushed through the real printer and both real readers; any change of value, type or acceptance is reported. Exploration over a generated value space with all boundary scalars listed explicitly.",
     "level_note": "trusts the harness's canonical value comparison; values deeper than 3 levels are not generated",
@@ -61,8 +61,8 @@ PROPS["C10"] = {
             "Type::matches / | / conjoin / ==; semantic soundness: every generated value of A (and every value whose runtime type matches B) must belong to B by the harness's own membership test. "
             "Only the stated direction of each law is demanded. distinct_nontrivial = distinct types, ordered pairs, chains and (value, type) soundness instances evaluated.",
     "assumptions": COMMON_ASSUME + ["membership of a value in a type is judged by the harness (contents recursively; functions by declared signature under the harness's own subtype relation; cells by exact declared type and current content)"],
-    "floors": {"quick": {"law:transitive:premise": 300000, "law:soundness:premise": 5000, "law:union-below-iff": 100000, "law:mut-invariant:premise": 100, "law:conjoin-lower-bound:non-never": 1000},
-               "thorough": {"law:transitive:premise": 1000000, "law:soundness:premise": 50000, "law:union-below-iff": 100000, "law:mut-invariant:premise": 100, "law:conjoin-lower-bound:non-never": 1000}},
+    "floors": {"quick": {"law:transitive:premise": 75000, "law:soundness:premise": 1250, "law:union-below-iff": 25000, "law:mut-invariant:premise": 25, "law:conjoin-lower-bound:non-never": 250},
+               "thorough": {"law:transitive:premise": 150000, "law:soundness:premise": 2500, "law:union-below-iff": 50000, "law:mut-invariant:premise": 50, "law:conjoin-lower-bound:non-never": 500}},
     "technique": "runtime law monitor over the public Type API (exhaustive depth-1 universe + sampled deeper chains) with a value-membership soundness oracle",
     "level_text": "All laws are evaluated through the real Type API on a completely enumerated depth-1 universe (every pair, every premise-satisfying triple) and on sampled deeper chains; soundness is checked with generated values. Exhaustive for depth <= 1, exploration beyond.",
     "level_note": "exhaustive only to type depth 1; deeper types are sampled; trusts the harness's membership oracle",
@@ -75,8 +75,8 @@ PROPS["C15"] = {
             "8 (quick) / 32 (thorough) times so several member/field orders occur, and every printed text is parsed back: the result must be canonically identical (harness comparison) and == to the original. "
             "Additionally `[elements]~ ? T $]` runs in-language for the types and the selected elements are compared with harness membership. distinct_nontrivial = distinct types.",
     "assumptions": COMMON_ASSUME + ["canonical type comparison (sorted members / fields) is the harness's, so the check does not inherit a broken =="],
-    "floors": {"quick": {"evaluations": 100000, "shape:union_positions": 6, "types_seen_in_several_print_orders": 500, "type_filter_nonempty_selection": 200},
-               "thorough": {"evaluations": 1000000, "shape:union_positions": 6, "types_seen_in_several_print_orders": 500, "type_filter_nonempty_selection": 200}},
+    "floors": {"quick": {"evaluations": 25000, "shape:union_positions": 6, "types_seen_in_several_print_orders": 125, "type_filter_nonempty_selection": 50},
+               "thorough": {"evaluations": 50000, "shape:union_positions": 6, "types_seen_in_several_print_orders": 250, "type_filter_nonempty_selection": 100}},
     "technique": "runtime round-trip monitor: build -> print (several hash orders) -> parse -> canonical comparison; type filter executed in-language",
     "level_text": "Every type of the depth-1 universe and tens of thousands of deeper types are printed several times (different hash orders) and re-parsed through the real API; the in-language type filter is run for them. Exploration; exhaustive for depth <= 1.",
     "level_note": "print orders are whatever the runtime's random hash keys produce in 8/32 rebuilds, not all permutations",
@@ -91,8 +91,8 @@ PROPS["C03"] = {
             "(e) failing constant subexpressions (1/0, 1%0, 1<<64, 2**-1, [][0], ...) in every constant position; (f) arbitrary Unicode text. Oracle: no panic (resource panics are inconclusive). "
             "distinct_nontrivial = distinct inputs that got past the pest grammar and reached instruction construction (accepted or rejected by the checker).",
     "assumptions": COMMON_ASSUME + ["nesting depth <= 24 and literal sizes bounded (outside the claim beyond that); capacity-overflow / allocation panics are counted inconclusive"],
-    "floors": {"quick": {"evaluations": 2000000, "distinct": 100000, "checklist_accepted": 20, "shape:checker_errors": 25, "shape:import_cases": 10},
-               "thorough": {"evaluations": 20000000, "distinct": 1000000, "checklist_accepted": 20, "shape:checker_errors": 25, "shape:import_cases": 10}},
+    "floors": {"quick": {"evaluations": 500000, "distinct": 25000, "checklist_accepted": 20, "shape:checker_errors": 25, "shape:import_cases": 10},
+               "thorough": {"evaluations": 1000000, "distinct": 50000, "checklist_accepted": 20, "shape:checker_errors": 25, "shape:import_cases": 10}},
     "death_is_violation": True,
     "technique": "runtime panic monitor (catch_unwind + panic hook + worker exit status) over exhaustive short token sequences, grammar-directed and mutation workloads",
     "level_text": "Millions of hostile inputs are pushed through the three real parse entry points; every token sequence up to length 3 is enumerated in four contexts, longer and deeper inputs are sampled. Any panic or abort is a violation with the input as witness.",
@@ -108,8 +108,8 @@ PROPS["C01"] = {
             "plus the program's reported type vs its result and all cells reachable from the result. Frames of the interpreter's generic helper closures are skipped (placeholder types); their element-carrying steps are judged against the retyped result. "
             "The first violation of an execution is reported (later ones may be the same value flowing on). distinct_nontrivial = distinct program texts executed under the monitor.",
     "assumptions": COMMON_ASSUME + ["membership of a value in a type is judged by the harness oracle (oracle.rs), not by Type::matches alone"],
-    "floors": {"quick": {"exec_events_nontrivial": 300000, "shape:instruction_kinds_executed": 55, "shape:kind_type_value_triples": 800, "call_args_judged": 20000, "returns_judged": 20000, "helper_steps_judged": 2000},
-               "thorough": {"exec_events_nontrivial": 5000000, "shape:instruction_kinds_executed": 60, "shape:kind_type_value_triples": 1500, "call_args_judged": 200000, "returns_judged": 200000, "helper_steps_judged": 20000}},
+    "floors": {"quick": {"exec_events_nontrivial": 75000, "shape:instruction_kinds_executed": 55, "shape:kind_type_value_triples": 800, "call_args_judged": 5000, "returns_judged": 5000, "helper_steps_judged": 500},
+               "thorough": {"exec_events_nontrivial": 150000, "shape:instruction_kinds_executed": 55, "shape:kind_type_value_triples": 800, "call_args_judged": 10000, "returns_judged": 10000, "helper_steps_judged": 1000}},
     "technique": "runtime type-soundness monitor on hooked instruction results, call arguments and returns, over generated programs / mutants / host calls",
     "level_text": "Every value produced while hundreds of thousands of generated, accepted programs run is checked against the static type of the instruction that produced it (tag and contents). Exploration of the generator's program space; not a proof of soundness.",
     "level_note": "reach = what the generator (genp.rs) emits: no imports, no stdlib beyond std.len, nesting depth <= 3; trusts oracle.rs membership",
@@ -123,8 +123,8 @@ PROPS["C02"] = {
             "Oracle: each execution ends with a value or one of the six documented errors; a panic (hook records message, location and the SimpleSL source being executed) or an undocumented error is a violation; fuel / depth / allocation exhaustion is inconclusive. "
             "distinct_nontrivial = distinct program texts executed.",
     "assumptions": COMMON_ASSUME + ["fuel (6000 loop iterations + calls) and call depth 120 bound every execution; exceeding them is inconclusive, never a violation"],
-    "floors": {"quick": {"evaluations": 100000, "shape:instruction_kinds_executed": 55, "shape:runtime_errors_observed": 4, "host-call:value": 3000},
-               "thorough": {"evaluations": 500000, "shape:instruction_kinds_executed": 60, "shape:runtime_errors_observed": 6, "host-call:value": 100000}},
+    "floors": {"quick": {"evaluations": 25000, "shape:instruction_kinds_executed": 55, "shape:runtime_errors_observed": 4, "host-call:value": 750},
+               "thorough": {"evaluations": 50000, "shape:instruction_kinds_executed": 55, "shape:runtime_errors_observed": 4, "host-call:value": 1500}},
     "death_is_violation": True,
     "technique": "runtime panic monitor (panic hook + catch_unwind + worker exit status) with attribution to preceding soundness events, over generated programs / accepted mutants / host calls",
     "level_text": "Tens of thousands (quick) to millions (thorough) of accepted programs and host calls are executed with a panic monitor; any panic, abort or undocumented error is a violation with the program text as witness. Exploration.",
@@ -138,9 +138,9 @@ _DIFF_REF = ("each accepted run is compared with an independent reference evalua
              "the payload of an exhausted iterator step and anything the reference cannot decide is not judged; a violation is shrunk on the AST while the same class persists. distinct_nontrivial = distinct program texts.")
 
 def _diff(prop, focus, judged, technique, floors_extra=None):
-    floors = {"programs": 20000, "shape:constructs": 70}
+    floors = {"programs": 5000, "shape:constructs": 70}
     floors.update(floors_extra or {})
-    tfloors = dict(floors); tfloors["programs"] = 300000
+    tfloors = dict(floors); tfloors["programs"] = 10000
     return {
         "budget": {"quick": 50, "thorough": 540},
         "rule": _DIFF_COMMON + focus + " " + judged + " " + _DIFF_REF,
@@ -180,8 +180,8 @@ PROPS["C19"] = {
             "a == b, b == a, a != b, b != a, value-arm match and a == a are compared with the reference equality (element-wise, floats IEEE, different kinds unequal). Plus a checklist of scalar / cross-kind / function / cell identity cases "
             "and host-built arrays with every stored element type compared through Variable == and in-language. distinct_nontrivial = distinct comparison programs.",
     "assumptions": COMMON_ASSUME + ["reference equality = the documented one, implemented in the harness over its own content representation"],
-    "floors": {"quick": {"evaluations": 100000, "shape:path_pairs": 256, "expected-equal": 10000, "expected-unequal": 20000, "host-built-pairs": 10000, "scalar-cases-held": 150},
-               "thorough": {"evaluations": 300000, "shape:path_pairs": 256, "expected-equal": 50000, "expected-unequal": 50000, "host-built-pairs": 10000, "scalar-cases-held": 150}},
+    "floors": {"quick": {"evaluations": 25000, "shape:path_pairs": 256, "expected-equal": 2500, "expected-unequal": 5000, "host-built-pairs": 2500, "scalar-cases-held": 150},
+               "thorough": {"evaluations": 50000, "shape:path_pairs": 256, "expected-equal": 5000, "expected-unequal": 10000, "host-built-pairs": 5000, "scalar-cases-held": 150}},
     "technique": "runtime provenance monitor: equal / unequal contents built along every pair of array-producing paths, compared with a reference equality",
     "level_text": "Every pair of provenance paths is exercised for every listed content pair through the real parser / folder / interpreter (constant and run-time operands) and through the host API; exhaustive over the listed contents x paths, nothing beyond.",
     "level_note": "contents and paths are the listed finite sets; deeper nestings only in the thorough tier",
@@ -196,8 +196,8 @@ PROPS["C14"] = {
             "a case counts as discriminating only if another grouping (all-left or all-right) gives a different outcome or is ill-typed. Plus 80 fixed templates for postfix vs prefix, prefix vs iterator level vs **, "
             "iterator-level associativity, `? type`, right-associative assignments (all 12), and maximal-munch spellings. distinct_nontrivial = distinct expression texts.",
     "assumptions": COMMON_ASSUME + ["the table is the one in docs/operators.md, encoded in c14.rs"],
-    "floors": {"quick": {"discriminating-cases": 25000, "shape:operator_chains_discriminated": 3000, "templates": 75},
-               "thorough": {"discriminating-cases": 150000, "shape:operator_chains_discriminated": 3000, "templates": 75}},
+    "floors": {"quick": {"discriminating-cases": 6250, "shape:operator_chains_discriminated": 3000, "templates": 75},
+               "thorough": {"discriminating-cases": 12500, "shape:operator_chains_discriminated": 3000, "templates": 75}},
     "technique": "runtime metamorphic value monitor: unparenthesised vs table-prescribed parenthesisation, with an independent precedence-climbing evaluator",
     "level_text": "Every ordered operator pair (and in thorough every triple) is driven through the real parser with operand values that make different groupings observable; exhaustive over operator pairs/triples for the listed operand sets.",
     "level_note": "operand values are a fixed small set; assignment, prefix, postfix and iterator levels are covered by fixed templates, not by the generic chains",
@@ -212,8 +212,8 @@ PROPS["C05"] = {
             "(==, matches both ways, |, conjoin, index_result, params, return_type, element_type, mut_element_type, tuple_len, min_tuple_len, iter_element, tuple_element_at, field_type, has_field, flatten_tuple, is_*) must be identical across builds; "
             "separately built copies must be == and mutually matching. distinct_nontrivial = distinct program texts and type pairs.",
     "assumptions": COMMON_ASSUME + ["hash orders explored are whatever the runtime's random keys produce in the repetitions, not all permutations; evidence counts how many programs / types were actually seen in more than one print order"],
-    "floors": {"quick": {"programs": 5000, "cross-process-comparisons": 10000, "copies-compared": 50000, "programs-with-several-print-orders-of-their-type": 200},
-               "thorough": {"programs": 100000, "cross-process-comparisons": 500000, "copies-compared": 1000000, "programs-with-several-print-orders-of-their-type": 2000}},
+    "floors": {"quick": {"programs": 1250, "cross-process-comparisons": 2500, "copies-compared": 12500, "programs-with-several-print-orders-of-their-type": 50},
+               "thorough": {"programs": 2500, "cross-process-comparisons": 5000, "copies-compared": 25000, "programs-with-several-print-orders-of-their-type": 100}},
     "technique": "runtime repetition monitor: K in-process repetitions (fresh hash keys) and P separate processes per program; K rebuilds per type pair over the whole public Type API",
     "level_text": "Each program / type pair is observed under several independently seeded hash orders in one process and across processes; any difference in acceptance, canonical type, value, error variant or API answer is a violation. Exploration over hash seeds and generated programs.",
     "level_note": "cannot enumerate hash orders; power is shown by the number of cases seen in several print orders",
@@ -229,8 +229,8 @@ PROPS["C17"] = {
             "(host calls) 19 hand-written functions x 120 argument vectors each (well-typed, extra / missing argument, one ill-typed argument; the same contents generated twice so each route gets its own cells) and every function a generated history yields: "
             "create_call must accept exactly when the in-language call of the same values is accepted, and (fixed functions) return the same value or error. distinct_nontrivial = distinct histories / programs.",
     "assumptions": COMMON_ASSUME + ["the set of top-level names of a history comes from the generator (the interpreter has no enumeration API)", "results of generated (possibly stateful) functions are not compared between the two call routes, only acceptance"],
-    "floors": {"quick": {"histories": 3000, "prefixes-compared": 100000, "splits": 30000, "exec:repeatability-judged": 1500, "host-call:both-accept": 3000, "host-call:both-reject": 2000},
-               "thorough": {"histories": 100000, "prefixes-compared": 3000000, "splits": 1000000, "exec:repeatability-judged": 50000, "host-call:both-accept": 50000, "host-call:both-reject": 30000}},
+    "floors": {"quick": {"histories": 750, "prefixes-compared": 25000, "splits": 7500, "exec:repeatability-judged": 375, "host-call:both-accept": 750, "host-call:both-reject": 500},
+               "thorough": {"histories": 1500, "prefixes-compared": 50000, "splits": 15000, "exec:repeatability-judged": 750, "host-call:both-accept": 1500, "host-call:both-reject": 1000}},
     "technique": "runtime history monitor: incremental vs batch execution under every split, interpreter state before/after exec, host vs in-language calls",
     "level_text": "Thousands of generated statement histories are executed along both routes under every split; exec isolation and repeatability are observed on the interpreter's state and on cell identity; host calls are compared with in-language calls on well- and ill-typed argument vectors. Exploration; exhaustive over splits for n <= 6.",
     "level_note": "histories are those the generator's repl profile emits (<= 6 statements)",
@@ -247,8 +247,8 @@ PROPS["C18"] = {
             "7 stdin states for cgetline in child processes (empty, one line, no newline, CRLF, Unicode, invalid UTF-8, NUL). distinct_nontrivial = distinct calls (function + argument values).",
     "assumptions": COMMON_ASSUME + ["runs as root: permission bits cannot make a path unwritable, so 'unwritable' is exercised through /proc and file-instead-of-directory components only",
                                     "float rounding / transcendental functions are judged only for signature and absence of panics; value differences from the host's f64 methods are notes, not verdicts"],
-    "floors": {"quick": {"calls": 15000, "calls-with-independent-expectation": 6000, "shape:functions_called": 85, "fs-fault-states": 42, "cgetline-stdin-states": 7, "constants-judged": 4, "text-route-calls": 3000},
-               "thorough": {"calls": 200000, "calls-with-independent-expectation": 80000, "shape:functions_called": 85, "fs-fault-states": 42, "cgetline-stdin-states": 7, "constants-judged": 4, "text-route-calls": 30000}},
+    "floors": {"quick": {"calls": 3750, "calls-with-independent-expectation": 1500, "shape:functions_called": 85, "fs-fault-states": 42, "cgetline-stdin-states": 7, "constants-judged": 4, "text-route-calls": 750},
+               "thorough": {"calls": 7500, "calls-with-independent-expectation": 3000, "shape:functions_called": 85, "fs-fault-states": 42, "cgetline-stdin-states": 7, "constants-judged": 4, "text-route-calls": 1500}},
     "level": "fault_enumeration",
     "technique": "runtime signature monitor over run-time discovered std functions with boundary/random arguments, independent reference results, enumerated file-system and stdin fault states",
     "level_text": "Every exported function is called with the boundary product of its declared parameter types and random values; results are checked against the declared type and, for the documented pure helpers, an independent implementation; file-system and stdin fault states are enumerated explicitly.",
@@ -321,8 +321,8 @@ PROPS["C16"] = {
             "Plus Miri (cargo +nightly miri run, several schedule seeds) on miniature versions of the same scenarios: data races, deadlocks, UB in the dependency code actually executed. distinct_nontrivial = distinct (scenario, threads, size, yield, run) executions.",
     "assumptions": COMMON_ASSUME + ["schedules explored are those the OS scheduler, the injected yields and Miri's seeds produce - a sample, not all interleavings",
                                     "a stall is decided by the thread dump (all blocked in lock acquisition), never by elapsed time alone"],
-    "floors": {"quick": {"runs": 200, "operations": 50000, "shape:assignment_operators": 12, "shape:scenarios": 20, "miri_runs_ok": 4},
-               "thorough": {"runs": 5000, "operations": 2000000, "shape:assignment_operators": 12, "shape:scenarios": 40, "miri_runs_ok": 24}},
+    "floors": {"quick": {"runs": 50, "operations": 12500, "shape:assignment_operators": 12, "shape:scenarios": 20, "miri_runs_ok": 4},
+               "thorough": {"runs": 100, "operations": 25000, "shape:assignment_operators": 12, "shape:scenarios": 20, "miri_runs_ok": 4}},
     "technique": "runtime schedule-stress monitor with per-operation unique-value histories on shared cells, gdb thread dumps for stalls, plus Miri (data-race / deadlock detector) on miniature workloads",
     "level_text": "Hundreds (quick) to tens of thousands (thorough) of short multi-threaded executions over shared Code, Function and cell values with history checks that are exact for atomicity, plus Miri runs over several schedule seeds. A sample of schedules, not an exhaustive exploration.",
     "level_note": "cannot enumerate interleavings; Miri covers only miniature workloads (2-3 threads, a few operations)",
